@@ -580,7 +580,7 @@ impl Property for C04 {
          -2^N, -2^(N-1), 0, 2^(N-1), 2^N for N = 14..16; thorough: complete for N <= 16), written in rotating forms (decimal, 0x, 0b, (v+1)-1, constant reference, hex \
          with leading zeros; all of these plus the bitwise NOT of a sized literal and the short slice of a negative operand `(0 - K)`W` within +-4 of a boundary); plus #dN with sized literals of every width 1..N+9. Oracle = the closed-form ranges of the \
          statement: all in-range values of a chunk are assembled in one program whose output must be the concatenation of the N-bit two's-complement images; each \
-         out-of-range value is assembled between two in-range neighbours and must give an error located on its own line and no output. RANDOM part: N in 17..=256, values at each boundary +-0..4; one case in four is a MOVING value: `t after(K)` / `t (K) + here` with `#fn after(n) => n + here`, where the label `here` stands behind an instruction of a short/long family and moves by one after the first pass - the final value decides acceptance and the emitted bits. Every case is non-trivial (it is the boundary table itself); distinct = distinct (type, N, chunk)."
+         out-of-range value is assembled between two in-range neighbours and must give an error located on its own line and no output. RANDOM part: N in 17..=256, values at each boundary +-0..4; one case in four is a MOVING value: `t after(K)` / `t (K) + here` with `#fn after(n) => n + here`, where the label `here` stands behind an instruction of a short/long family and moves by one after the first pass - the final value decides acceptance and the emitted bits. Every case is non-trivial (it is the boundary table itself); distinct = distinct (type, N, chunk). (v4) HANDED-DOWN values, a third of the moving cases: a value accepted by an outer typed parameter (s/i/u, 4-16 bits) reaches a second typed parameter (u/s/i, 4-20 bits) through a block-local (`y = x` / `asm { emit {y} }`), a function argument, two locals, or textually; accepted iff inside BOTH ranges, emitted as the inner type's image."
             .to_string()
     }
     fn assumptions(&self) -> Vec<String> {
